@@ -129,7 +129,11 @@ def tv_events(rng, tier):
         none_mode = (o % 5 == 4)
         cplx = (o % 4 == 3) and not none_mode
         dtype = rng.choice([torch.float32, torch.float64, torch.int64]) if not cplx else torch.complex64
-        ber = BitErrorRate()
+        # the same bits in the {-1,+1} alphabet (float or integer dtypes): a decision threshold of 0 or 0.5 separates them just as well
+        bipolar = (o % 4 == 1) and not cplx
+        if bipolar:
+            dtype = rng.choice([torch.float32, torch.int64, torch.int8])
+        ber = BitErrorRate(threshold=rng.choice([0.0, 0.5])) if bipolar else BitErrorRate()
         bler = BlockErrorRate(block_size=None if none_mode else B)
         tid += 1
         evs.append({"ev": "New", "tid": tid})
@@ -147,6 +151,8 @@ def tv_events(rng, tier):
                 else:
                     xi, yi = [], []
                     X, Y = tens(x, rows, dtype), tens(y, rows, dtype)
+                    if bipolar:
+                        X, Y = X * 2 - 1, Y * 2 - 1
                     r_ = rng.random()
                     if r_ < 0.2 and m > 1 and not none_mode:
                         X, Y = X.reshape(rows, m, B), Y.reshape(rows, m, B)       # 3-D layout, one block per trailing row
